@@ -159,7 +159,7 @@ PROPS["C06"] = Spec(
     "(thorough 40-130) unrelated publications without a checkpoint; oracle: every wait returns exactly at max(request time, first "
     "matching publication time) with the published object / factory product; optional, synchronous and outside-startup lookups "
     "complete without any other task running in between; non-trivial = (a wait whose publication came after the request, with a "
-    "decoy present) or request and publication within 3 trace events at the same virtual time (race window)",
+    "decoy present) or request and publication by another component within 3 trace events at the same virtual time (race window)",
     bounds={"quick": "<=7 components, bursts<=70, 4x2500", "thorough": "<=15 components, bursts<=130, 16x15000"},
     assumptions=COMMON_ASSUMPTIONS,
 )
